@@ -580,6 +580,11 @@ func (u *Unit) floatOp(op, a, b string, bits int, isCmp bool) string {
 		if !u.declared["fn:"+name] {
 			u.declared["fn:"+name] = true
 			u.emit("(declare-fun %s (Real Real) Real)", name)
+			if f == "fmul" {
+				// IEEE: x*1 = 1*x = x exactly
+				u.emit("(assert (forall ((x Real)) (! (= (%s x 1.0) x) :pattern ((%s x 1.0)))))", name, name)
+				u.emit("(assert (forall ((x Real)) (! (= (%s 1.0 x) x) :pattern ((%s 1.0 x)))))", name, name)
+			}
 		}
 		return "(" + name + " " + a + " " + b + ")"
 	}
